@@ -80,8 +80,15 @@ def main():
     tier = os.environ.get("VERIF_TIER", "quick")
     rep = Report(PID)
     stats = {}
+    hook = None
     try:
-        hook = build_gohook()
+        try:
+            hook = build_gohook()
+        except BuildError as e:
+            # the export wrapper no longer fits the code (e.g. sortDiagnostics changed its signature): the function-level tie is
+            # broken, the whole-compiler observation below still runs and may exhibit a failing input
+            log(str(e)[-1500:])
+            rep.fail("tie:hook", "the diag-sort hook no longer builds against the current tree (function-level tie broken)", {"kind": "broken-obligation", "correspondence": "gohook diag-sort", "detail": str(e)[-1500:]}, no_input=True)
         ferret, libs, gated = build_ferret_gated()
         fvdriver()
     except BuildError as e:
@@ -109,7 +116,8 @@ def main():
         for perm in itertools.permutations(base3[:k]):
             cases.append(" ".join(perm))
     inp = "".join(c + "\n" for c in cases)
-    go = run([hook, "diag-sort"], input=inp, timeout=600).stdout.split("\n")
+    if hook is None: cases = []
+    go = run([hook, "diag-sort"], input=inp, timeout=600).stdout.split("\n") if hook else []
     lean = run_driver(["diag-sort"], inp).split("\n")
     sort_diffs = [{"input": c[:300], "go": g[:200], "model": l[:200]} for c, g, l in zip(cases, go, lean) if g != l]
     # property-level oracle on located lists: two arrival orders that agree per key must be emitted identically
@@ -129,7 +137,8 @@ def main():
             other.append(g.pop(0))
             if not g: gl.remove(g)
         pairs_in += [" ".join(ds), " ".join(other)]
-    pg = run([hook, "diag-sort"], input="".join(c + "\n" for c in pairs_in), timeout=600).stdout.split("\n")
+    if hook is None: pairs_in = []
+    pg = run([hook, "diag-sort"], input="".join(c + "\n" for c in pairs_in), timeout=600).stdout.split("\n") if hook else []
     for i in range(0, len(pairs_in), 2):
         inv_cases += 1
         if pg[i] != pg[i + 1]:
@@ -221,6 +230,8 @@ def main():
     }
     write_evidence(PID, "other", cov, assumptions=["schedules are varied (delays at module-parse entry, before lexing, before parsing, before dependency registration; GOMAXPROCS), not exhaustively enumerated",
                                                      "Go randomises map iteration per run; repetition is what exposes unsorted map ranges"], violations=len(rep.violations))
+    if any(not v[3] for v in rep.violations):
+        rep.violations = [v for v in rep.violations if not (v[3] and v[0].startswith("tie:"))] + [v for v in rep.violations if v[3] and v[0].startswith("tie:")]
     return rep.finish()
 
 
